@@ -246,3 +246,23 @@ def gen_session(rng, nops=None, rotations=False, compress="n", target="fd", nbps
             bp = G.gen_bp(rng, simple=simple_bp, tps=tps)
             ops.append(("AB", bp)); shadow.add_bp(bp)
     return make_session(fp, bps, ops, target=target, compress=compress, end_flush=end_flush)
+
+
+def alignment_sweep(rng, lengths, target="fd", compress="n", rotate=False):
+    """sessions in which a stretched string member moves every later write across all positions of the encoder's staging
+    buffer: a record with 64-bit members, statistics and the closing break follow a name of length L, for every L"""
+    out = []
+    fp = {"maj": 1, "min": 0, "priv": 1}
+    for L in lengths:
+        bps = [{"tps": 1000000000, "max": 3, "qrh": G.ALL_QRH, "sigh": G.ALL_SIGH, "rrh": 3, "odh": 3}]
+        pad = bytes([65 + (L % 26)]) * L
+        big = {"ts": (1636068056, 999999999), "qs": 2**64 - 1, "rs": 2**32, "rd": -2**63, "rtt": 2**63 - 1, "cport": 65535,
+               "asn": b"AS4200001234" + pad[:L % 7]}
+        ops = [("Q", {"qn": pad, "cport": 1}, None), ("Q", dict(big), [2**32 - 1, None, 7, None, None, 0]),
+               ("A", {"at": 1, "ip": bytes([10, 0, 0, L % 256])}, None)]
+        if rotate:
+            ops += [("R", target, 1), ("Q", dict(big), None), ("R", target, L % 2), ("Q", {"cport": 2, "asn": pad}, None)]
+        else:
+            ops += [("W",), ("Q", dict(big), None)]
+        out.append(make_session(fp, bps, ops, target=target, compress=compress))
+    return out
